@@ -252,6 +252,34 @@ func extractC01() *lean {
 	seq("validateNutsCredentialIDReturns", val, "validateNutsCredentialID")
 	seq("validateCredentialStatusReturns", val, "validateCredentialStatus")
 
+	// doVerifyVP: is the per-credential flag `checkSignature` (re)declared INSIDE the loop over the presentation's credentials?
+	// (declared outside, the exemption of a proof-less self-attested credential would leak to the credentials after it)
+	perCred := false
+	if fd := funcDecl(ver, "doVerifyVP"); fd != nil {
+		ast.Inspect(fd, func(n ast.Node) bool {
+			rs, ok := n.(*ast.RangeStmt)
+			if !ok || !strings.Contains(c01Expr(rs.X), "VerifiableCredential") {
+				return true
+			}
+			for _, st := range rs.Body.List {
+				if as, ok := st.(*ast.AssignStmt); ok && as.Tok == token.DEFINE && len(as.Lhs) == 1 && c01Expr(as.Lhs[0]) == "checkSignature" && c01Expr(as.Rhs[0]) == "true" {
+					perCred = true
+				}
+				if ds, ok := st.(*ast.DeclStmt); ok {
+					if gd, ok := ds.Decl.(*ast.GenDecl); ok {
+						for _, sp := range gd.Specs {
+							if vs, ok := sp.(*ast.ValueSpec); ok && len(vs.Names) == 1 && vs.Names[0].Name == "checkSignature" {
+								perCred = true
+							}
+						}
+					}
+				}
+			}
+			return true
+		})
+	}
+	l.def("checkSignatureFlagIsPerCredential", "Bool", map[bool]string{true: "true", false: "false"}[perCred], perCred)
+
 	if v, ok := c01Const(ver, "maxSkew"); ok {
 		l.def("maxSkewMs", "Int", c01DurationMs(v), v)
 	} else {
